@@ -1,11 +1,16 @@
 #!/bin/bash
-# usage: try_mutant.sh <patch.diff> <prop> [more check args]  - applies the patch to /repo, runs the check, reverts
+# usage: try_mutant.sh <ABSOLUTE patch.diff> <prop> [more check args]  - applies the patch to /repo, runs the check, restores /repo HEAD
+# and the evidence / replay files of the unchanged tree (a run on a patched tree must not leave its evidence behind)
 P="$1"; shift
 cd /repo || exit 2
 git diff --quiet || { echo "/repo not clean"; exit 2; }
 git apply "$P" 2>/dev/null || git apply --3way "$P" || { echo APPLY-FAILED; git checkout -f -q HEAD -- . ; exit 2; }
 cd /verif
+BK=$(mktemp -d /tmp/verif_ev.XXXXXX)
+cp -a evidence "$BK/evidence" 2>/dev/null
 ./check "$@" 2>&1 | grep -E "^(VIOLATION|INCONCLUSIVE|ENGINE-ERROR|KNOWN|C[0-9]+ \[)" | cut -c1-330
 RC=${PIPESTATUS[0]}
 git -C /repo checkout -f -q HEAD -- .
+if [ -d "$BK/evidence" ]; then rm -rf evidence; mv "$BK/evidence" evidence; fi
+rm -rf "$BK"
 echo "exit=$RC"
